@@ -160,6 +160,9 @@ static void Worker(TracedPool * pool, Mailbox * mb, unsigned seed, int nOps, boo
             case 11: if (slots[a]()) {bool cyc = false; for (Obj * p = slots[b](); p; p = p->next()) if (p == slots[a]()) {cyc = true; break;} if (!cyc) slots[a]()->next = slots[b];} break;   // obj.next := slot
             case 12: case 13: if (slots[a]()) slots[a] = slots[a]()->next; break;                                                                                                   // pop the head: slot := slot->next
          }
+#ifndef VERIF_NO_PRIVATE
+         if (g_traceReliable) for (int i=0; i<3; i++) if (slots[i]()) {std::map<const void *, int>::iterator it = g_objId.find(slots[i]()); if ((it != g_objId.end())&&(g_derived[it->second] != (long) slots[i]()->GetRefCount())) g_traceReliable = false;}
+#endif
          for (int i=0; i<3; i++) {CHECK(slots[i]); if (chains) {int n = 0; for (Obj * p = slots[i](); (p)&&(n < 100); p = p->next(), n++) if (p->state != 42) {Bad("an object that is still referenced by another object's member reference was recycled (released early)"); break;}}}
       }
 #ifndef VERIF_NO_PRIVATE
